@@ -459,8 +459,9 @@ class LowerToIRVisitor(Visitor.DefaultVisitor):
 
                 assert isinstance(value, LinearIR.Value)
 
+                # The shuffle produces the new value of the whole parent
                 si = LinearIR.ShuffleInstruction(
-                    ctx.AdaptType(expr.GetType()),
+                    value.Type,
                     value,
                     ctx.AssignmentValue,
                     indices,
